@@ -66,6 +66,37 @@ def is_add_obs(out: T, ts: T, key: T) -> Tuple[bool, str]:
     return False, why
 
 
+def base_wrapper_obligations(res: Result, rule: str, tree: Tree) -> int:
+    """The base class every functional wrapper inherits from is a transparent proxy: reset/step/render hand their
+    arguments on in the same order and return the inner result itself; the four spec accessors return the inner specs
+    (AutoResetWrapper and the Vmap wrappers inherit all of them except reset/step/render)."""
+    ci = tree.classes.get(W + "Wrapper")
+    if ci is None:
+        raise AnalysisError("anchor jumanji.wrappers.Wrapper not found")
+    self_t = mk("self", ci.qual)
+    E = mk("attr", self_t, wrapper_env_attr(tree))
+    n = 0
+    for meth in ("reset", "step", "render"):
+        f = ci.methods.get(meth)
+        if f is None:
+            raise AnalysisError(f"Wrapper.{meth} not found")
+        v = VFG(tree, Model(tree))
+        ps = [mk("param", f.qual, p) for p in f.params[1:]]
+        r = uncopy(v.apply_func(f, self_t, ci, ps, {}, None, None))
+        exp = mk("call", mk("attr", E, meth), tuple(ps), ())
+        res.add(rule, f.loc(), f"wrappers.Wrapper.{meth}", f"{meth}(*args) is env.{meth}(*args) with the arguments in the same order", r is exp, txt(r, 5, 160))
+        n += 1
+    for prop in ("observation_spec", "action_spec", "reward_spec", "discount_spec", "unwrapped"):
+        f = ci.methods.get(prop)
+        if f is None:
+            raise AnalysisError(f"Wrapper.{prop} not found")
+        v = VFG(tree, Model(tree))
+        r = uncopy(v.apply_func(f, self_t, ci, [], {}, None, None))
+        res.add(rule, f.loc(), f"wrappers.Wrapper.{prop}", f"{prop} is the wrapped environment's {prop}", r is mk("attr", E, prop), txt(r, 5, 160))
+        n += 1
+    return n
+
+
 def autoreset_obligations(res: Result, rule: str, vfg: VFG, tree: Tree, clsname: str, batched: bool) -> Dict[str, object]:
     """Instantiates the C13 obligations on `clsname`; returns facts for sibling agreement.  The wrapper is evaluated
     twice, once per value of next_obs_in_extras, with the attributes its __init__ fixes for that value: whatever
@@ -233,6 +264,7 @@ def check(tier: str) -> Result:
     n_keys = borrow(res, "c10", {"C10.R1a": "C13.R5"})
     # ---- R7: the same obligations on the batched sibling (the property is quantified over jit / vmap / scan use)
     n_sib = borrow(res, "c14", {"C14.R2": "C13.R7"})
+    n_base = base_wrapper_obligations(res, "C13.R8", tree)
     res.analysed = {"generator_key_obligations": n_keys, "classes": ["jumanji.wrappers.AutoResetWrapper"], "functions": sorted(vfg.visited_funcs), "state_leaf_shapes_compared": n_shapes}
     res.assumptions = ["the wrapped environment is abstract (any Environment); lax.cond selects one branch result",
                        "jax.random.split yields keys distinct from its input"]
